@@ -352,17 +352,30 @@ func (doc *Document) Warnings() (warnings Warnings) {
 			context.Family = family
 		}
 
-		Filter(node, doc, func(node Node) (newNode Node, traverseChildren bool) {
-			if warner, ok := node.(Warner); ok {
-				for _, warning := range warner.Warnings() {
-					warning.SetContext(context)
-					warnings = append(warnings, warning)
-				}
-			}
-
-			return node, true
-		})
+		warnings = appendWarnings(warnings, node, context)
 	}
 
 	return
+}
+
+// appendWarnings collects the warnings of node and of all of its descendants,
+// parents before children. It only reads the nodes: asking for warnings must
+// not change the document.
+func appendWarnings(warnings Warnings, node Node, context WarningContext) Warnings {
+	if IsNil(node) {
+		return warnings
+	}
+
+	if warner, ok := node.(Warner); ok {
+		for _, warning := range warner.Warnings() {
+			warning.SetContext(context)
+			warnings = append(warnings, warning)
+		}
+	}
+
+	for _, child := range node.Nodes() {
+		warnings = appendWarnings(warnings, child, context)
+	}
+
+	return warnings
 }
